@@ -75,6 +75,20 @@ func c18Band(r *Rng, R, P float64, s int, k, zlo, zhi, tol float64) (p v3.Vec, x
 	return v3.Vec{X: rho * cs, Y: rho * sn, Z: z}, x, y
 }
 
+// c18Vol: a point anywhere in the cylinder of radius Rmax between zlo and zhi, with extra weight next to the axis (threads
+// are built from a profile revolved about it: what happens at rho -> 0 is part of the solid too)
+func c18Vol(r *Rng, Rmax, zlo, zhi float64) v3.Vec {
+	rho := Rmax * math.Sqrt(r.F())
+	switch r.I(3) {
+	case 0:
+		rho = Rmax * math.Pow(r.F(), 4)
+	case 1:
+		rho = Rmax * r.LogR(1e-6, 0.2)
+	}
+	sn, cs := math.Sincos(r.R(-math.Pi, math.Pi))
+	return v3.Vec{X: rho * cs, Y: rho * sn, Z: r.R(zlo, zhi)}
+}
+
 type c18Profile struct {
 	Name string
 	Mk   func(r, p float64) (sdf.SDF2, error)
@@ -391,6 +405,7 @@ type c18MateCase struct {
 	P          float64 // pitch (native unit of the pair)
 	Desc       map[string]any
 	Evals      int // points evaluated (flushed to c.Eval in batches: the counter is mutex-protected)
+	Key        string // known-finding key of the point being judged ("" = none)
 }
 
 func c18Overlap(c *Ctx, mc *c18MateCase, p v3.Vec, e, n float64, inB, inN *int, closest *float64) {
@@ -411,12 +426,36 @@ func c18Overlap(c *Ctx, mc *c18MateCase, p v3.Vec, e, n float64, inB, inN *int, 
 		for k, v := range mc.Desc {
 			d[k] = v
 		}
-		c.Violate("", fmt.Sprintf("%s %s bolt_tol=%gP nut_tol=%gP: bolt thread and nut material overlap by %.4g pitch at p=%v (bolt %.6g, nut material %.6g) %v",
+		c.Violate(mc.Key, fmt.Sprintf("%s %s bolt_tol=%gP nut_tol=%gP: bolt thread and nut material overlap by %.4g pitch at p=%v (bolt %.6g, nut material %.6g) %v",
 			mc.Kind, mc.Name, mc.Fb, mc.Fn, -m/mc.P, p, e, n, mc.Desc), d)
 	}
 }
 
+// c18KeyNutPlug: known finding, identified by this call: obj.Nut of a tapered (NPT) thread has material on its own axis.
+const c18KeyNutPlug = "obj-nut-npt-axial-plug"
+
+func c18PinnedNutPlug(c *Ctx) {
+	nut, err := obj.Nut(&obj.NutParms{Thread: "npt_1/8", Style: "hex", Tolerance: 0})
+	if err != nil {
+		c18Inconcl(c, fmt.Sprintf("pinned obj.Nut npt_1/8: %v", err))
+		return
+	}
+	h := nut.BoundingBox().Max.Z
+	worst, at := 0.0, 0.0
+	for _, f := range []float64{-0.9, -0.6, -0.3, 0.3, 0.6, 0.9} {
+		if v := nut.Evaluate(v3.Vec{Z: f * h}); v < worst {
+			worst, at = v, f*h
+		}
+	}
+	c.Eval(6)
+	if worst < 0 {
+		c.Violate(c18KeyNutPlug, fmt.Sprintf("mate-obj pinned obj.Nut(npt_1/8, hex, tolerance 0): the point (0,0,%.4g) on the axis of the nut is inside its material (Evaluate=%.4g): the tapered internal thread leaves a thin cone along the axis uncut, which the solid core of obj.Bolt intersects", at, worst),
+			map[string]any{"thread": "npt_1/8", "z": at, "value": worst})
+	}
+}
+
 func c18CheckMating(c *Ctx, entries []c18Entry) {
+	c18PinnedNutPlug(c)
 	nPts := c.Pick(2000, 40000)
 	var closeMu sync.Mutex
 	closeByClass := map[string]float64{}
@@ -473,6 +512,9 @@ func c18CheckMating(c *Ctx, entries []c18Entry) {
 			zr := math.Min(Lb, Ln)/2 + 0.4*P
 			for i := 0; i < nPts; i++ {
 				p, _, _ := c18Band(r, t.Radius, P, st, k, -zr, zr, math.Max(tb, tn))
+				if i%5 == 4 {
+					p = c18Vol(r, t.Radius+P, -zr, zr)
+				}
 				e := ext.Evaluate(p)
 				n := math.Max(math.Max(math.Hypot(p.X, p.Y)-Rbody, math.Abs(p.Z)-Ln/2), -cut.Evaluate(p))
 				c18Overlap(c, mc, p, e, n, &inB, &inN, &closest)
@@ -541,10 +583,21 @@ func c18CheckMating(c *Ctx, entries []c18Entry) {
 			mc.Desc = map[string]any{"kind": "obj", "name": en.Name, "style": style, "total_len": shank + Lt, "shank_len": shank, "bolt_tol": tb, "nut_tol": tn, "nut_phi": phi, "nut_advance": adv, "thread_centre_z": zc}
 			for i := 0; i < nPts/2; i++ {
 				q, _, _ := c18Band(r, t.Radius, P, 1, k, adv-nh/2-0.3*P, adv+nh/2+0.3*P, math.Max(tb, tn))
+				if i%5 == 4 {
+					q = c18Vol(r, t.Radius+P, adv-nh/2-0.3*P, adv+nh/2+0.3*P)
+				}
 				p := v3.Vec{X: q.X, Y: q.Y, Z: q.Z + zc}
 				e := bolt.Evaluate(p)
-				n := nut.Evaluate(c18Helix(q, -phi, -adv))
+				nq := c18Helix(q, -phi, -adv)
+				n := nut.Evaluate(nq)
+				// known finding: a tapered internal thread leaves a thin cone of material on the axis of the nut (pinned in
+				// c18PinnedNutPlug); points inside that cone (with 5 % margin) are reported under its key, everything else as usual
+				mc.Key = ""
+				if t.Taper != 0 && math.Hypot(nq.X, nq.Y) <= 1.05*math.Abs(nq.Z)*math.Tan(t.Taper)+1e-9*P {
+					mc.Key = c18KeyNutPlug
+				}
 				c18Overlap(c, mc, p, e, n, &inB, &inN, &closest)
+				mc.Key = ""
 			}
 		}
 		if inB > 0 && inN > 0 {
@@ -581,6 +634,9 @@ func c18CheckMating(c *Ctx, entries []c18Entry) {
 			inB, inN, closest := 0, 0, math.Inf(1)
 			for i := 0; i < nPts/2; i++ {
 				p, _, _ := c18Band(r, Rm, Pm, 1, k, -H/2-0.4*Pm, H/2+0.4*Pm, math.Max(tb, tn)*f)
+				if i%5 == 4 {
+					p = c18Vol(r, Rm+Pm, -H/2-0.4*Pm, H/2+0.4*Pm)
+				}
 				c18Overlap(c, mc, p, ext.Evaluate(p), tc.Evaluate(p), &inB, &inN, &closest)
 			}
 			if inB > 0 && inN > 0 {
@@ -623,6 +679,19 @@ func checkC18(c *Ctx) {
 	c.Obs("database_entries_resolved", len(entries))
 	c18CheckSymmetry(c)
 	c18CheckMating(c, entries)
+	// history: building screws, nuts, bolts and threaded cylinders (with tolerances) must leave the database as it was
+	for _, e := range entries {
+		t, err := sdf.ThreadLookup(e.Name)
+		c.Eval(1)
+		if err != nil || t == nil {
+			c.Violate("", fmt.Sprintf("table-changed designation %q no longer resolves after the objects were built: %v", e.Name, err), map[string]any{"name": e.Name})
+			continue
+		}
+		if *t != e.T {
+			c.Violate("", fmt.Sprintf("table-changed designation %q: database entry is %+v after the objects were built, was %+v", e.Name, *t, e.T), map[string]any{"name": e.Name, "before": e.T, "after": *t})
+		}
+	}
+	c.Count("table_entries_rechecked_after_object_construction", int64(len(entries)))
 	e0 := entries[len(entries)/3]
 	for _, e := range entries {
 		if e.Name == "npt_1/2" {
